@@ -201,7 +201,7 @@ CONFIG.rule = ("op lines from one PRNG (VERIF_SEED): every letter-case variant o
                "octets >= 0x80, '_' in host); random garbage; lengths around the 65535-byte compose buffer. Through KSI_UriSplitBasic, the client's "
                "uriSplit, KSI_CTX_setAggregator / setExtender and KSI_AsyncService_setEndpoint (signing and extending); observed: status and, "
                "captured with --wrap at the transport setters, the URL / host+port / path and the login id and key handed over. For URIs written "
-               "from parts the Lean driver also evaluates the grammar-level specification (specBlocking / specAsync). Distinct by op line.")
+               "from parts the Lean driver also evaluates the grammar-level specification (specBlocking / specAsync). Distinct by op line. Aggregator and extender set from every ordered pair of schemes on one context: probes in the three sub clients show where a signing and an extending request go (route).")
 CONFIG.trusted_base = [
     "Lean 4.33.0 kernel; axioms propext, Classical.choice, Quot.sound only (audited per theorem each run; `decide +kernel` over the 256 octet values is kernel evaluation, no extra axiom)",
     "normal_url_char[] (as compiled: this build is HTTP_PARSER_STRICT=0) and schemeMap[] are regenerated every run from http_parser.c / net.c; "
